@@ -526,13 +526,23 @@ class AppClock(Clock, metaclass=MetaAppClock):
 class ClockScheduler():
     def __init__(self):
         self.queue = tsq.TaskQueue()
+        self._pending = dict()  # One entry per clock and task as in rt queues.
 
     def run(self):
         while not self.queue.empty():
             time, clock_task = self.queue.pop()
+            key = (clock_task.clock, clock_task.task)
+            if self._pending.get(key) is clock_task:
+                del self._pending[key]
             clock_task._wakeup(time)
 
     def add(self, time, clock_task):
+        # Scheduling a task again on the same clock moves it, as rt clocks do.
+        key = (clock_task.clock, clock_task.task)
+        prev = self._pending.get(key)
+        if prev is not None and prev is not clock_task:
+            self.queue.remove(prev)
+        self._pending[key] = clock_task
         self.queue.add(time, clock_task)
 
     def retime(self, clock):
@@ -544,6 +554,7 @@ class ClockScheduler():
 
     def reset(self):
         self.queue.clear()
+        self._pending.clear()
 
 
 class ClockTask():
